@@ -115,6 +115,43 @@ def enc_table(tree: ast.Module) -> list[tuple[str, str]]:
     return [(known[n], v) for n, v in out]
 
 
+def no_shared_decoder(tree: ast.Module) -> None:
+    """Source obligation "no decoder object is shared between requests": every zstandard.ZstdDecompressor(...) /
+    zlib.decompressobj(...) is constructed inside the (undecorated) function that decodes ONE body, and the object a
+    stream_reader / decompress call is made on is such a fresh construction (directly, or through a local name)."""
+    site = f"{CODEC}:decoder-object-per-body"
+    owners = {"_decompress_body_zstd": "ZstdDecompressor", "_decompress_body_gzip": "decompressobj"}
+
+    def is_ctor(n: ast.AST) -> bool:
+        return isinstance(n, ast.Call) and ast.unparse(n.func) in ("zstandard.ZstdDecompressor", "zlib.decompressobj", "ZstdDecompressor", "decompressobj")
+
+    inside: set[int] = set()
+    for f in tree.body:
+        if isinstance(f, ast.FunctionDef) and f.name in owners:
+            if f.decorator_list:
+                raise TranslationBroken(site, f"{f.name} is decorated")
+            fresh = {t.id for st in ast.walk(f) if isinstance(st, ast.Assign) and is_ctor(st.value) for t in st.targets if isinstance(t, ast.Name)}
+            for st in ast.walk(f):
+                if isinstance(st, (ast.Global, ast.Nonlocal)):
+                    raise TranslationBroken(site, f"{f.name} declares global/nonlocal names")
+                if is_ctor(st):
+                    inside.add(id(st))
+                if isinstance(st, ast.Call) and isinstance(st.func, ast.Attribute) and st.func.attr in ("stream_reader", "decompress") and f.name == "_decompress_body_zstd":
+                    recv = st.func.value
+                    if not (is_ctor(recv) or (isinstance(recv, ast.Name) and recv.id in fresh)):
+                        raise TranslationBroken(site, f"{f.name}: {ast.unparse(st.func)} is called on an object not constructed for this body ({ast.unparse(recv)})")
+                if isinstance(st, ast.Call) and isinstance(st.func, ast.Attribute) and st.func.attr in ("decompress", "flush") and f.name == "_decompress_body_gzip":
+                    recv = st.func.value
+                    if not (isinstance(recv, ast.Name) and recv.id in fresh):
+                        raise TranslationBroken(site, f"{f.name}: {ast.unparse(st.func)} is called on an object not constructed for this body ({ast.unparse(recv)})")
+    for n in ast.walk(tree):
+        if is_ctor(n) and id(n) not in inside:
+            raise TranslationBroken(site, f"a decoder object is constructed outside the per-body decode functions (line {getattr(n, 'lineno', '?')})")
+    for n in ast.walk(tree):
+        if isinstance(n, ast.FunctionDef) and any("cache" in ast.unparse(d) for d in n.decorator_list) and "ecompress" in n.name:
+            raise TranslationBroken(site, f"{n.name} caches a decoder-related object")
+
+
 def zstd_loop(tree: ast.Module) -> dict[str, str]:
     site = f"{CODEC}:_decompress_body_zstd"
     fn = _func(tree, "_decompress_body_zstd", site)
@@ -351,6 +388,7 @@ def extract(repo: Path) -> dict[str, Any]:
     mw = _parse(repo, MIDDLEWARE)
     fac = _parse(repo, FACTORY)
     defs: dict[str, str] = {}
+    no_shared_decoder(codec)
     defs.update(zstd_loop(codec))
     gz, gz_eof, gz_break = gzip_loop(codec)
     defs.update(gz)
